@@ -539,7 +539,7 @@ Proof.
   intros Hl Hr. rewrite mask_small by auto.
   assert (from_bits sub fv = Ok sub fv) as Hfb.
   { unfold from_bits. replace ((0 <=? fv) && (fv <? 2 ^ layout_size sub)) with true by lia. reflexivity. }
-  destruct sub; simpl in Hl; try discriminate; exact Hfb.
+  destruct sub; simpl in Hl; try discriminate; cbn [const_field]; rewrite mask_small by auto; exact Hfb.
 Qed.
 
 (* nested-layout fields: the value read back is the constant of the nested initialiser *)
@@ -556,10 +556,17 @@ Proof.
   apply (layout_const_range sub' x fv Hws Hfi).
 Qed.
 
-(* enumeration fields: correct for members that are non-negative and fit the shape *)
+(* enumeration fields: the member is read back, for every member that fits the shape (negative ones included) *)
+Lemma const_field_enum s vw ms m : wf_shape s = true -> in_range s m -> memz m ms = true ->
+  const_field (ELeaf s vw ms) (mask (width s) (norm s m)) = Ok (ELeaf s vw ms) m.
+Proof.
+  intros Hs Hm Hmem. cbn [const_field]. rewrite norm_of_mask by auto. rewrite norm_idem by auto.
+  rewrite (norm_id s m Hs Hm). rewrite Hmem. reflexivity.
+Qed.
+
 Lemma const_field_roundtrip_enum l kvs v k m off s vw ms : wf_layout l = true ->
   layout_const l (IMap kvs) = Okz v -> keys_disjoint l (map fst kvs) = true -> In (k, IVal m) kvs ->
-  field_of l k = Some (off, ELeaf s vw ms) -> 0 <= m < 2 ^ width s ->
+  field_of l k = Some (off, ELeaf s vw ms) -> in_range s m ->
   const_getitem l v k = Ok (ELeaf s vw ms) m.
 Proof.
   intros Hwf Hc Hkd Hin Hfo Hm.
@@ -567,7 +574,7 @@ Proof.
   rewrite Hfo in Hfo'. inversion Hfo'; subst. simpl in Hfi.
   destruct (memz m ms) eqn:Hmem; [|discriminate]. inversion Hfi; subst.
   rewrite Hg. destruct (field_of_within l k off' _ Hwf Hfo) as (_ & _ & Hws). simpl in Hws.
-  simpl layout_size. rewrite mask_of_norm by auto. rewrite mask_small by auto. simpl. rewrite Hmem. reflexivity.
+  simpl layout_size. apply const_field_enum; auto.
 Qed.
 
 (* ================================================================== nested paths *)
@@ -645,11 +652,13 @@ Qed.
 Lemma view_field_const sub bits : wf_layout sub = true -> 0 <= bits < 2 ^ layout_size sub ->
   view_ok_field sub bits = true -> view_field sub bits = const_field sub bits.
 Proof.
-  intros Hwf Hb Hok. destruct sub as [s|s vw ms|fs|fs|e n|sz fs]; try reflexivity.
+  intros Hwf Hb Hok.
+  destruct sub as [s|s vw ms|fs|fs|e n|sz fs]; try (cbn [const_field view_field]; rewrite mask_small by auto; reflexivity).
   - simpl in *. unfold norm. destruct (sgn s); [reflexivity|]. rewrite mask_small by auto. reflexivity.
-  - simpl in *. destruct vw.
-    + destruct (sgn s); [discriminate|]. reflexivity.
-    + rewrite Hok. reflexivity.
+  - simpl in Hb, Hok. cbn [view_field const_field].
+    assert ((if sgn s then sext (width s) bits else bits) = norm s bits) as ->.
+    { unfold norm. destruct (sgn s); [reflexivity|]. rewrite mask_small by auto. reflexivity. }
+    destruct vw; [reflexivity|]. simpl in Hok. rewrite Hok. reflexivity.
 Qed.
 
 Lemma view_getitem_field l tv k off sub : field_of l k = Some (off, sub) ->
@@ -689,6 +698,22 @@ Proof.
       replace (i <? width s) with true by lia. simpl. rewrite testbit_div_pow2 by lia. f_equal. lia.
     + replace (i <? width s) with true by lia. simpl. rewrite testbit_mask by auto.
       replace (i <? width s) with true by lia. simpl. rewrite testbit_div_pow2 by lia. f_equal. lia.
+Qed.
+
+(* an enumeration field (view class) of a view, signed shapes included: the member whose value is the bit slice
+   reinterpreted in the enumeration's shape — the same answer as the constant's field *)
+Lemma view_enum_spec l tv k off s ms : wf_layout l = true -> field_of l k = Some (off, ELeaf s true ms) ->
+  let v := norm s ((tv / 2 ^ off) mod 2 ^ width s) in
+  view_getitem l tv k = const_getitem l tv k /\
+  view_getitem l tv k = (if memz v ms then Ok (ELeaf s true ms) v else Err 3).
+Proof.
+  intros Hwf Hfo v. destruct (field_of_within l k off _ Hwf Hfo) as (Ho & _ & Hws).
+  pose proof (layout_size_nonneg _ Hws) as Hw. simpl in Hw, Hws.
+  assert (view_getitem l tv k = const_getitem l tv k) as Hvc.
+  { apply view_matches_const; auto. intros off' sub' Hfo'. rewrite Hfo in Hfo'. inversion Hfo'; subst. reflexivity. }
+  split; [exact Hvc|]. rewrite Hvc.
+  rewrite (const_getitem_field l tv k off _ (field_of_some_layout l k _ Hfo) Hfo). cbn [const_field layout_size].
+  rewrite slice_eq by auto. reflexivity.
 Qed.
 
 (* dynamic index within range = static index *)
@@ -882,12 +907,13 @@ Proof.
   intros Hs Hin Hr. apply memz_in in Hin. unfold enum_const, enum_from_bits. rewrite Hin. rewrite norm_id; auto.
 Qed.
 
-(* the bit pattern handed to from_bits by data.Const.__getitem__ is the unsigned one *)
-Lemma enum_pattern_roundtrip s ms m v : wf_shape s = true -> In m ms -> 0 <= m < 2 ^ width s ->
-  enum_const s ms m = Okz v -> enum_from_bits ms (mask (width s) v) = Okz m.
+(* data.Const.__getitem__ hands from_bits the field's bit pattern read in the enumeration's shape *)
+Lemma enum_pattern_roundtrip s ms m v : wf_shape s = true -> In m ms -> in_range s m ->
+  enum_const s ms m = Okz v -> enum_from_bits ms (norm s (mask (width s) v)) = Okz m.
 Proof.
   intros Hs Hin Hr. apply memz_in in Hin. unfold enum_const, enum_from_bits. rewrite Hin.
-  intros H; inversion H; subst. rewrite mask_of_norm by auto. rewrite mask_small by auto. rewrite Hin. reflexivity.
+  intros H; inversion H; subst. rewrite norm_of_mask by auto. rewrite norm_idem by auto.
+  rewrite (norm_id s m Hs Hr). rewrite Hin. reflexivity.
 Qed.
 
 (* ================================================================== flags *)
@@ -1148,7 +1174,7 @@ Lemma xfield_readback sub x fv : wf_layout sub = true -> xfield_init xlayout_con
      (forall kvs, x = XMap kvs -> xlayout_const sub x = Okz fv /\ const_field sub (mask (layout_size sub) fv) = Ok sub fv) /\
      (forall l' raw, x = XDConst l' raw -> 0 <= raw < 2 ^ layout_size l' ->
         fv = raw /\ layout_eqb sub l' = true /\ const_field sub (mask (layout_size sub) fv) = Ok sub raw)) /\
-  (forall s vw ms m, sub = ELeaf s vw ms -> x = XVal m -> 0 <= m < 2 ^ width s ->
+  (forall s vw ms m, sub = ELeaf s vw ms -> x = XVal m -> in_range s m ->
      const_field sub (mask (layout_size sub) fv) = Ok sub m).
 Proof.
   intros Hwf Hfi. split; [|split].
@@ -1165,8 +1191,7 @@ Proof.
         destruct (layout_eqb _ l'); inversion Hfi; auto. }
       split; auto. split; auto. apply const_field_layout; auto. rewrite (layout_eqb_size _ _ He). exact Hr.
   - intros s vw ms m -> -> Hm. simpl in Hfi, Hwf. destruct (memz m ms) eqn:Hmem; [|discriminate].
-    inversion Hfi; subst. simpl layout_size. rewrite mask_of_norm by auto. rewrite mask_small by auto.
-    simpl. rewrite Hmem. reflexivity.
+    inversion Hfi; subst. simpl layout_size. apply const_field_enum; auto.
 Qed.
 
 (* the read-back clauses for every initialiser kind, from the facts delivered by the fold lemmas *)
@@ -1177,7 +1202,7 @@ Definition xreadback (l : layout) (v k : Z) (sub : layout) (x : xinit) : Prop :=
      exists fv, xlayout_const sub x = Okz fv /\ const_getitem l v k = Ok sub fv) /\
   (forall l' raw, is_layout sub = true -> x = XDConst l' raw -> 0 <= raw < 2 ^ layout_size l' ->
      layout_eqb sub l' = true /\ const_getitem l v k = Ok sub raw) /\
-  (forall s vw ms m, sub = ELeaf s vw ms -> x = XVal m -> 0 <= m < 2 ^ width s ->
+  (forall s vw ms m, sub = ELeaf s vw ms -> x = XVal m -> in_range s m ->
      const_getitem l v k = Ok sub m).
 
 Lemma xreadback_pack l v k off sub fv x : wf_layout l = true -> field_of l k = Some (off, sub) ->
